@@ -1,5 +1,6 @@
 pub mod big;
 pub mod result;
+pub mod segpair;
 pub mod splay;
 
 use crate::exec::Prec;
